@@ -521,22 +521,24 @@ theorem framesOf_values : ∀ (vals : List Nat) (fs : List CDSFrame), framesOf v
     simp only [pure, Except.pure, Except.ok.injEq] at h
     subst h
     have hv : frameNat f = v := by
-      unfold GenP.frameOfInt at hf
-      by_cases h0 : (Int.ofNat v) = 0
-      · have : v = 0 := by simpa using h0
-        subst this
-        simp [liftPy] at hf; subst hf; rfl
-      by_cases h1 : (Int.ofNat v) = 1
-      · have : v = 1 := by omega
-        subst this
-        simp [liftPy] at hf; subst hf; rfl
-      by_cases h2 : (Int.ofNat v) = 2
-      · have : v = 2 := by omega
-        subst this
-        simp [liftPy] at hf; subst hf; rfl
-      have hm1 : ¬ ((Int.ofNat v) = -1) := by omega
-      simp [hm1, h0, h1, h2, liftPy] at hf
+      match v, hf with
+      | 0, hf => simp [GenP.frameOfInt, liftPy] at hf; subst hf; rfl
+      | 1, hf => simp [GenP.frameOfInt, liftPy] at hf; subst hf; rfl
+      | 2, hf => simp [GenP.frameOfInt, liftPy] at hf; subst hf; rfl
+      | n + 3, hf =>
+        exfalso
+        simp only [Int.ofNat_eq_natCast, GenP.frameOfInt] at hf
+        rw [if_neg (by omega), if_neg (by omega), if_neg (by omega), if_neg (by omega)] at hf
+        simp [liftPy] at hf
     simp [hv, ih fs' hfs']
+
+/-- the constructor stores the frames it was given -/
+theorem mkCDS_frames (exons : List Blk) (st : Strand) (fs : List CDSFrame) (seq : Option (List Char)) (c : CDS)
+    (h : mkCDS exons st (.frames fs) seq = .ok c) : c.frames = fs := by
+  unfold mkCDS at h
+  simp only [bind, Except.bind, pure, Except.pure, throw, throwThe, MonadExceptOf.throw] at h
+  repeat' split at h
+  all_goals first | (cases h; rfl) | (cases h; done) | skip
 
 /-- **TranscriptInterval.from_chunk_relative_location** (with the CDS object `CDSInterval.from_chunk_relative_location`
     builds) on a chunk of either strand.  `hk`: the CDS constructor accepts the CDS part (frame values 0-2, …). -/
@@ -570,29 +572,7 @@ theorem tx_fromChunkRelative (t : TxD) (ch : Model.Chunk.Chunk) (hch : ChunkOk c
         have : initializeLocation (t.cdsD.exons.map (·.1)) t.cdsD.st (.chunk ch) = handedLocation (t.cds.map (·.1)) t.st ch := rfl
         rw [this, hcl'] at hloc; exact (Except.ok.inj hloc).symm
       refine ⟨h1, ?_⟩
-      have hfr : base.frames = fs := by
-        unfold mkCDS at hbase
-        split at hbase
-        · split at hbase
-          · simp [throw, throwThe, MonadExceptOf.throw, bind, Except.bind] at hbase
-          · obtain ⟨_, _, hbase⟩ := bind_ok_inv hbase
-            obtain ⟨_, _, hbase⟩ := bind_ok_inv hbase
-            obtain ⟨_, _, hbase⟩ := bind_ok_inv hbase
-            obtain ⟨_, _, hbase⟩ := bind_ok_inv hbase
-            obtain ⟨_, _, hbase⟩ := bind_ok_inv hbase
-            obtain ⟨_, _, hbase⟩ := bind_ok_inv hbase
-            obtain ⟨fr, hfr, hbase⟩ := bind_ok_inv hbase
-            simp only [pure, Except.pure, Except.ok.injEq] at hbase hfr
-            subst hbase; subst hfr; rfl
-        · obtain ⟨_, _, hbase⟩ := bind_ok_inv hbase
-          obtain ⟨_, _, hbase⟩ := bind_ok_inv hbase
-          obtain ⟨_, _, hbase⟩ := bind_ok_inv hbase
-          obtain ⟨_, _, hbase⟩ := bind_ok_inv hbase
-          obtain ⟨_, _, hbase⟩ := bind_ok_inv hbase
-          obtain ⟨_, _, hbase⟩ := bind_ok_inv hbase
-          obtain ⟨fr, hfr, hbase⟩ := bind_ok_inv hbase
-          simp only [pure, Except.pure, Except.ok.injEq] at hbase hfr
-          subst hbase; subst hfr; rfl
+      have hfr : base.frames = fs := mkCDS_frames _ _ _ _ _ hbase
       rw [hfr]
       exact framesOf_values _ fs hfs
     have hkc : cdsFromChunkRelative ch cl (t.cds.map (·.2)) = .ok k := by
@@ -610,7 +590,99 @@ theorem tx_fromChunkRelative (t : TxD) (ch : Model.Chunk.Chunk) (hch : ChunkOk c
     simp only [descFromChunkRelative, hl, he, hcl', hkc, txDescFromChunkRelative, hm, hms, hmb, hcm', hcmb, hkparts.2,
       zipFrames, List.length_map, ne_eq, not_true, if_false, bind, Except.bind, pure, Except.pure, zip_fst_snd,
       Bool.false_eq_true]
-    cases t; rfl
+
+
+/-! ### `to_dict()` → `from_dict(vals, parent)`: the constructor receives the description again -/
+
+theorem reDictFeat_id (f : FeatD) : reDictFeat f = f := by
+  cases f; simp [reDictFeat, zip_fst_snd]
+
+theorem reDictCds_id (ex : List (Blk × Nat)) : reDictCds ex = ex := by
+  induction ex with
+  | nil => rfl
+  | cons x xs ih =>
+    simp only [reDictCds, List.map_cons, List.zip_cons_cons] at ih ⊢
+    rw [ih]
+
+theorem reDictCdsD_id (x : CdsD) : reDictCdsD x = x := by
+  cases x; simp [reDictCdsD, reDictCds_id]
+
+theorem reDictTx_id (t : TxD) : reDictTx t = t := by
+  cases t with
+  | mk st exons cds =>
+    simp only [reDictTx, zip_fst_snd, reDictCds_id]
+    cases cds <;> simp
+
+theorem map_id_of {α} (f : α → α) (h : ∀ x, f x = x) (l : List α) : l.map f = l := by
+  induction l with
+  | nil => rfl
+  | cons x xs ih => simp [h x, ih]
+
+theorem reDictGene_id (g : GeneD) : reDictGene g = g := by
+  cases g; simp [reDictGene, map_id_of _ reDictTx_id]
+
+theorem reDictFic_id (q : FicD) : reDictFic q = q := by
+  cases q; simp [reDictFic, map_id_of _ reDictFeat_id]
+
+/-- the root node of an AnnotationCollection carries its bounds -/
+theorem mkAc_root (a : AcD) (p : Par) (ns : List Node) (h : mkAc a p = .ok ns) (b : Blk) (hb : a.bounds = some b) :
+    ∃ n, ns.head? = some n ∧ n.start = b.1 ∧ n.«end» = b.2 := by
+  unfold mkAc at h
+  obtain ⟨genes, _, h⟩ := bind_ok_inv h
+  obtain ⟨fics, _, h⟩ := bind_ok_inv h
+  simp only [hb] at h
+  obtain ⟨loc, _, h⟩ := bind_ok_inv h
+  simp only [pure, Except.pure, Except.ok.injEq] at h
+  subst h
+  exact ⟨_, rfl, rfl, rfl⟩
+
+/-- `reDict` is the identity on every description whose bounds (if it is an AnnotationCollection) are explicit -/
+theorem reDict_id (d : Desc) (src : Par) (a : List Node) (ha : buildNodes d src = .ok a)
+    (hb : ∀ ac, d = .ac ac → ac.bounds ≠ none) : reDict d a.head? = d := by
+  cases d with
+  | feat f => simp [reDict, reDictFeat_id]
+  | tx t => simp [reDict, reDictTx_id]
+  | cds x => simp [reDict, reDictCdsD_id]
+  | gene g => simp [reDict, reDictGene_id]
+  | fic q => simp [reDict, reDictFic_id]
+  | ac ac =>
+    cases hbd : ac.bounds with
+    | none => exact absurd hbd (hb ac rfl)
+    | some b =>
+      obtain ⟨n, hn, hs, he⟩ := mkAc_root ac src a (by simpa [buildNodes] using ha) b hbd
+      cases ac with
+      | mk genes fics bounds =>
+        simp only at hbd
+        subst hbd
+        simp only [reDict, hn, hs, he, map_id_of _ reDictGene_id, map_id_of _ reDictFic_id]
+
+/-- **`from_dict(o.to_dict(), parent_or_seq_chunk_parent=p)`** (hence `liftover_to_parent_or_seq_chunk_parent(p)`)
+    of an object `o` built on ANY parent `src` is the ordinary construction on `p` -/
+theorem viaDict_eq (d : Desc) (src p : Par) (hsrc : ∃ a, buildNodes d src = .ok a)
+    (hb : ∀ ac, d = .ac ac → ac.bounds ≠ none) : viaDict d src p = buildNodes d p := by
+  obtain ⟨a, ha⟩ := hsrc
+  unfold viaDict
+  simp only [ha, bind, Except.bind]
+  rw [reDict_id d src a ha hb]
+
+/-! ### the chromosome-level codon answers of a chunk-built CDS do not depend on the chunk -/
+
+theorem mkChunkCDS_base (x : CdsD) (ch ch' : Model.Chunk.Chunk) (k k' : ChunkCDS)
+    (hk : mkChunkCDS x ch = .ok k) (hk' : mkChunkCDS x ch' = .ok k') : k.base = k'.base := by
+  unfold mkChunkCDS at hk hk'
+  obtain ⟨_, _, hk⟩ := bind_ok_inv hk
+  obtain ⟨fs, hfs, hk⟩ := bind_ok_inv hk
+  obtain ⟨c, hc, hk⟩ := bind_ok_inv hk
+  obtain ⟨_, _, hk'⟩ := bind_ok_inv hk'
+  obtain ⟨fs', hfs', hk'⟩ := bind_ok_inv hk'
+  obtain ⟨c', hc', hk'⟩ := bind_ok_inv hk'
+  rw [hfs] at hfs'
+  cases hfs'
+  rw [hc] at hc'
+  cases hc'
+  cases hk
+  cases hk'
+  rfl
 
 
 end BioCantor.Proofs.Chunk
